@@ -34,6 +34,14 @@ claim('C20', 'role-pair comparison consistency (normalised S?B relations over pr
       'rustc front end + MIR; mirfacts; role table (S: last_seq, wait_until; B: all_acked_before, reader_sn_state.base(), acked_before) taken from the field comments.',
       'DESIGN.md section 4 C20')
 
+claim('C17', 'gating analysis: dominance / edge-cut rules over the call graph and CFGs of the security-feature MIR, decision-tree reconstruction of the exemption match',
+      'Decides for all paths (all inputs) that plaintext cannot reach a Reader/Writer delivery sink past a required protection level: the rtps-level flag is decided afresh '
+      'per message and cleared only under {no plugins, successful message decode, domain not rtps-protected}; both submessage handlers test it and exempt exactly the three '
+      'bootstrap entities (reconstructed byte-wise from the lowered match and compared with the EntityId constants); every hand-over is under the submessage-level gate; '
+      'the payload reaches the Reader only as the Ok value of decode_serialized_payload; the not-protected sets are filled only under !is_*_protected.',
+      'rustc front end + MIR (security feature set); mirfacts; std Option/Result::map semantics; governance attributes correct (C18); crypto plugin verifies (C16).',
+      'DESIGN.md section 4 C17')
+
 _pending = 'check not built yet in this revision (static rules designed in DESIGN.md section 4; implementation in progress)'
 for _p in ['C01', 'C02', 'C03', 'C04', 'C05', 'C06', 'C08', 'C09', 'C10', 'C11', 'C12', 'C14', 'C15', 'C16', 'C17', 'C18', 'C19', 'C20']:
     if _p not in CHECKS:
